@@ -55,6 +55,11 @@ TIERS = {
 T0 = AggHarness.T0
 E = "E1"
 FAULTS = ["reconnect", "graceful", "drained", "abrupt"]
+# The engine reports its System State as an ordinary tag.  The RunStarted notification precedes the tag update that carries
+# "Running" (EngineRunner posts RunStartedMsg from the on_start event, the state change travels with the next tag batch),
+# so for a moment the aggregator knows the run while the last System State it has seen is still "Stopped".
+SYS = "System State"
+SYS_VALUES = ("Stopped", "Running", "Paused", "Holding")
 
 
 def _num(x):
@@ -138,8 +143,10 @@ def _run(case):
                     if op.get("run") != cur and op.get("run") is not None:
                         continue
                     if not (isinstance(tags, list) and tags and all(isinstance(t, list) and len(t) == 3 and isinstance(t[0], str) and t[0]
-                                                                    and _num(t[1]) and _num(t[2]) for t in tags)):
+                                                                    and (_num(t[1]) or (t[0] == SYS and t[1] in SYS_VALUES)) and _num(t[2]) for t in tags)):
                         continue
+                    if any(t[0] == SYS for t in tags):
+                        classes.add("has:system-state-tag")
                     if op.get("run") is not None:
                         ts = {t[2] for t in tags}
                         if len(ts) != 1 or (last_t is not None and not (tags[0][2] - last_t > interval)):
@@ -237,14 +244,14 @@ def check_case(case) -> list[Violation]:
 
 # ---- generator ------------------------------------------------------------------------------------------
 
-def _connect_block(interval, readings, snapshot_t=None):
+def _connect_block(interval, readings, snapshot_t=None, sys_state=None):
     b = [{"op": "register"}, {"op": "connect"}, {"op": "uod_info"}]
     if snapshot_t is not None:
-        b.append({"op": "tags", "run": None, "tags": [[r, 0, snapshot_t] for r in readings]})
+        b.append({"op": "tags", "run": None, "tags": [[r, 0, snapshot_t] for r in readings] + ([[SYS, sys_state, snapshot_t]] if sys_state else [])})
     return b
 
 
-def _fault_block(kind, interval, readings, snapshot_t):
+def _fault_block(kind, interval, readings, snapshot_t, sys_state=None):
     if kind == "reconnect":
         head = [{"op": "disconnect"}]
     elif kind == "graceful":
@@ -253,7 +260,7 @@ def _fault_block(kind, interval, readings, snapshot_t):
         head = [{"op": "disconnect"}, {"op": "restart", "graceful": True}]
     else:
         head = [{"op": "restart", "graceful": False}]
-    return head + _connect_block(interval, readings, snapshot_t)
+    return head + _connect_block(interval, readings, snapshot_t, sys_state)
 
 
 @st.composite
@@ -262,30 +269,43 @@ def stories(draw):
     readings = draw(st.lists(st.sampled_from(["A", "B", "C"]), min_size=1, max_size=3, unique=True))
     t = T0
     body: list[dict] = []
-    if draw(st.booleans()):
-        body.append({"op": "tags", "run": None, "tags": [[r, 1, t] for r in readings]})
+    sysstate = draw(st.integers(0, 2)) > 0          # the stream carries the System State tag like a real engine's
+    if draw(st.booleans()) or sysstate:
+        body.append({"op": "tags", "run": None, "tags": [[r, 1, t] for r in readings] + ([[SYS, "Stopped", t]] if sysstate else [])})
     counter = 10
     for k in range(draw(st.integers(1, 2))):
         run = "run-%d" % (k + 1)
         t += interval + 0.5
         body.append({"op": "run_started", "run": run, "t": t})
-        for _ in range(draw(st.integers(1, 4))):
+        nb = draw(st.integers(1, 4))
+        running_in = draw(st.integers(0, min(1, nb - 1)))      # batch that first carries "Running"
+        mid_state = draw(st.sampled_from([None, None, "Paused", "Holding"]))
+        for b in range(nb):
             t += interval + draw(st.sampled_from([0.25, 0.5, 2.0]))
             names = draw(st.lists(st.sampled_from(readings + ["X"]), min_size=1, max_size=3, unique=True))
             tags = []
             for n in names:
                 counter += 1
                 tags.append([n, counter if draw(st.booleans()) else counter + 0.5, t])
+            if sysstate and b == running_in:
+                tags.append([SYS, "Running", t])
+            elif sysstate and b > running_in and mid_state and b == nb - 1:
+                tags.append([SYS, mid_state, t])
             body.append({"op": "tags", "run": run, "tags": tags})
-        body.append({"op": "run_stopped", "run": run})
-        if draw(st.integers(0, 2)) == 0:
+        stopped_first = sysstate and draw(st.booleans())
+        if stopped_first:                                      # the state change may reach the aggregator before or after RunStopped
             t += interval + 0.5
-            body.append({"op": "tags", "run": None, "tags": [[r, 2, t] for r in readings]})
+            body.append({"op": "tags", "run": run, "tags": [[SYS, "Stopped", t]]})
+        body.append({"op": "run_stopped", "run": run})
+        if draw(st.integers(0, 2)) == 0 or (sysstate and not stopped_first):
+            t += interval + 0.5
+            body.append({"op": "tags", "run": None, "tags": [[r, 2, t] for r in readings] + ([[SYS, "Stopped", t]] if sysstate else [])})
     snapshot = draw(st.booleans())
     pairs = draw(st.lists(st.tuples(st.integers(0, len(body)), st.sampled_from(FAULTS), st.integers(0, len(body)), st.sampled_from(FAULTS)),
                           min_size=0, max_size=12, unique=True))
     file_pick = draw(st.integers(0, 24))
-    return {"interval": interval, "readings": readings, "body": body, "snapshot": snapshot, "pairs": pairs, "file_pick": file_pick}
+    return {"interval": interval, "readings": readings, "body": body, "snapshot": snapshot, "pairs": pairs, "file_pick": file_pick,
+            "sysstate": sysstate}
 
 
 def expand(story, faults):
@@ -293,17 +313,25 @@ def expand(story, faults):
     interval, readings, body = story["interval"], story["readings"], story["body"]
     ops = _connect_block(interval, readings)
     t_here = T0
+    engine_state = "Stopped"      # what the engine itself would report in a snapshot at this point of the story
     for p in range(len(body) + 1):
         for pos, kind in faults:
             if pos == p:
                 # the run-less snapshot an engine sends when it is in steady state again carries the engine's current time
-                ops += _fault_block(kind, interval, readings, t_here if story["snapshot"] else None)
+                ops += _fault_block(kind, interval, readings, t_here if story["snapshot"] else None,
+                                    engine_state if story.get("sysstate") else None)
         if p < len(body):
             ops.append(body[p])
             if body[p]["op"] == "tags":
                 t_here = max(t_here, max(t[2] for t in body[p]["tags"]))
+                for tg in body[p]["tags"]:
+                    if tg[0] == SYS:
+                        engine_state = tg[1]
             elif body[p]["op"] == "run_started":
                 t_here = max(t_here, body[p]["t"])
+                engine_state = "Running"
+            elif body[p]["op"] == "run_stopped":
+                engine_state = "Stopped"
     return ops
 
 
